@@ -29,10 +29,16 @@ def gen_pair(rng, mode):
         edges = []
         for k in range(rng.randint(0, 2)):
             ar = rng.choice([0, 1])
-            edges.append({'id': f's{s}E{k}', 'att': rng.sample(nodes, ar)})
+            att = rng.sample(nodes, ar)
+            if edges and rng.random() < 0.4:
+                att = list(edges[-1]['att'])          # parallel nonterminal edges on the same node tuple
+            edges.append({'id': f's{s}E{k}', 'att': att})
         skels.append({'nodes': nodes, 'ext': ext, 'edges': edges})
     if mode == 'clash':
         names = [{'S': 0, 'X': 1, 'X,Y': 1}, {'S': 0, 'Y,Z': 1, 'Z': 1}]
+    elif mode == 'clash3':
+        # three different pairs share the base name <X,Y,Z,W>
+        names = [{'S': 0, 'X': 1, 'X,Y': 1, 'X,Y,Z': 1}, {'S': 0, 'Y,Z,W': 1, 'Z,W': 1, 'W': 1}]
     else:
         names = [{'S': 0, 'X': 1, 'W': 0}, {'S': 0, 'Y': 1, 'V': 0}]
     tcount = [0]
@@ -72,7 +78,7 @@ def gen_pair(rng, mode):
                     tid = f't{si}_{k}' if mode == 'sharedterm' else f'g{gi}t{tcount[0]}'
                     edges.append({'id': tid, 'lab': t, 'att': rng.sample(sk['nodes'], len(typ))})
                 rules.append({'lhs': lhs, 'nodes': [{'id': n, 'l': 'T'} for n in sk['nodes']], 'edges': edges, 'ext': list(sk['ext'])})
-        if mode == 'clash' and gi == 0:
+        if mode in ('clash', 'clash3') and gi == 0:
             els['<X,Y>'] = {'t': True, 'type': []}     # a terminal literally named like a pair
         return {'els': els, 'start': 'S', 'rules': rules}
     g1 = mk(0)
@@ -165,7 +171,7 @@ def run(tier, seed):
                      'the naming of nonterminal pairs is read from fggs.conjunction.nonterminal_pairs as a hint that TLC checks; without a working hint TLC searches all namings (up to 4 pairs)']
     rng = rng_for(seed, 'c17')
     n = 240 if tier == 'quick' else 3000
-    modes = ['plain', 'plain', 'clash', 'sharedterm', 'self', 'self_implicit', 'conflict', 'plain']
+    modes = ['plain', 'clash3', 'clash', 'sharedterm', 'self', 'self_implicit', 'conflict', 'plain']
     jobs = []
     for i in range(n):
         mode = modes[i % len(modes)]
